@@ -13,32 +13,65 @@ def extract():
                 imports[a.asname or a.name] = a.name
     reg = None
     for node in tree.body:
+        val = None
         if isinstance(node, ast.Assign) and len(node.targets) == 1 and isinstance(node.targets[0], ast.Name) \
                 and node.targets[0].id == "MESSAGE_TYPE_TO_PROTO":
+            val = node.value
+        elif isinstance(node, ast.AnnAssign) and isinstance(node.target, ast.Name) and node.target.id == "MESSAGE_TYPE_TO_PROTO" \
+                and node.value is not None:
+            val = node.value
+        if val is not None:
             if reg is not None:
                 raise TranslationError("MESSAGE_TYPE_TO_PROTO assigned twice")
-            if not isinstance(node.value, ast.Dict):
+            if not isinstance(val, ast.Dict):
                 raise TranslationError("MESSAGE_TYPE_TO_PROTO is not a dict literal")
             reg = []
-            for k, v in zip(node.value.keys, node.value.values):
+            for k, v in zip(val.keys, val.values):
                 if not (isinstance(k, ast.Constant) and type(k.value) is int):
                     raise TranslationError(f"registry key is not an int literal: {ast.dump(k)}")
                 if not isinstance(v, ast.Name) or v.id not in imports:
                     raise TranslationError(f"registry value is not an imported api_pb2 class: {ast.dump(v)}")
                 reg.append((k.value, imports[v.id]))
-        elif isinstance(node, (ast.AugAssign, ast.AnnAssign)) and "MESSAGE_TYPE_TO_PROTO" in ast.dump(node):
-            raise TranslationError("MESSAGE_TYPE_TO_PROTO modified after its definition")
+        else:
+            touched = []
+            if isinstance(node, ast.Assign):
+                touched = node.targets
+            elif isinstance(node, (ast.AugAssign, ast.AnnAssign)):
+                touched = [node.target]
+            elif isinstance(node, ast.Delete):
+                touched = node.targets
+            elif isinstance(node, ast.Expr):
+                touched = [node.value]
+            if any("MESSAGE_TYPE_TO_PROTO" in ast.dump(t) for t in touched):
+                raise TranslationError("MESSAGE_TYPE_TO_PROTO modified after its definition")
     if reg is None:
         raise TranslationError("MESSAGE_TYPE_TO_PROTO not found")
     # connection.py must derive the positional table and inverse map the way the model assumes
     ctree = ast.parse((PKG / "connection.py").read_text())
     seen = {}
     for node in ctree.body:
-        if isinstance(node, ast.Assign) and isinstance(node.targets[0], ast.Name):
-            seen[node.targets[0].id] = ast.unparse(node.value)
-    if seen.get("MESSAGE_NUMBER_TO_PROTO") != "tuple(MESSAGE_TYPE_TO_PROTO.values())":
+        if isinstance(node, ast.Assign) and len(node.targets) == 1 and isinstance(node.targets[0], ast.Name):
+            tgt, val = node.targets[0].id, node.value
+        elif isinstance(node, ast.AnnAssign) and isinstance(node.target, ast.Name) and node.value is not None:
+            tgt, val = node.target.id, node.value
+        else:
+            continue
+        if tgt in seen and tgt in ("MESSAGE_NUMBER_TO_PROTO", "PROTO_TO_MESSAGE_TYPE"):
+            raise TranslationError(f"{tgt} assigned twice")
+        seen[tgt] = val
+    num = seen.get("MESSAGE_NUMBER_TO_PROTO")
+    if num is None or ast.unparse(num) != "tuple(MESSAGE_TYPE_TO_PROTO.values())":
         raise TranslationError("MESSAGE_NUMBER_TO_PROTO is not tuple(MESSAGE_TYPE_TO_PROTO.values())")
-    if seen.get("PROTO_TO_MESSAGE_TYPE") != "{v: k for k, v in MESSAGE_TYPE_TO_PROTO.items()}":
+    inv = seen.get("PROTO_TO_MESSAGE_TYPE")
+    ok = isinstance(inv, ast.DictComp) and len(inv.generators) == 1 and not inv.generators[0].ifs and not inv.generators[0].is_async \
+        and ast.unparse(inv.generators[0].iter) == "MESSAGE_TYPE_TO_PROTO.items()" \
+        and isinstance(inv.generators[0].target, ast.Tuple) and len(inv.generators[0].target.elts) == 2 \
+        and all(isinstance(e, ast.Name) for e in inv.generators[0].target.elts) \
+        and isinstance(inv.key, ast.Name) and isinstance(inv.value, ast.Name)
+    if ok:
+        kname, vname = (e.id for e in inv.generators[0].target.elts)
+        ok = kname != vname and inv.key.id == vname and inv.value.id == kname
+    if not ok:
         raise TranslationError("PROTO_TO_MESSAGE_TYPE is not the inverse dict comprehension")
     return reg
 
